@@ -160,6 +160,7 @@ class Env(object):
             if with_cells:
                 p.on('callCellValue', self._on_cell)
                 p.on('callRangeValue', self._on_range)
+                p.on('callVariable', self._on_var)
             self._cache[key] = p
         return p
 
@@ -171,6 +172,14 @@ class Env(object):
             v = cells.get(cell.label)
         if v is not None:
             setter(v)
+
+    def _on_var(self, name, setter):
+        # a name the host answers through the callVariable listener: cells = {'var:rate': value}
+        cells = self._cells
+        if not callable(cells):
+            v = cells.get('var:' + name)
+            if v is not None:
+                setter(v)
 
     def _on_range(self, start, end, setter):
         cells = self._cells
